@@ -132,7 +132,7 @@ def check_interp_boundary(repo: Repo, run: Any, rule: str, only_exc: Optional[Se
 def result_handler(repo: Repo) -> Tuple[List[str], List[str], ast.FunctionDef]:
     """(classes in result()'s except tuple, keys of its message table)."""
     ev = repo.mod("evaluation")
-    fn = ev.func("result")
+    fn = ev.func_n("result")  # the handler body may live in a private helper
     caught: List[str] = []
     keys: List[str] = []
     from .model import deref
